@@ -159,7 +159,7 @@ def _jsonable(v):
     return repr(v)
 
 
-def explore(ob: Obligation, prefixes=None, harvest=None, deadline=None):
+def explore(ob: Obligation, prefixes=None, harvest=None, deadline=None, slice_s=None):
     """Explore all paths of `ob` extending the given decision prefixes (default: the empty prefix).
 
     harvest=N: stop as soon as >= N prefixes are pending and return them (for work distribution).
@@ -172,6 +172,8 @@ def explore(ob: Obligation, prefixes=None, harvest=None, deadline=None):
     while e.pending:
         if harvest is not None and len(e.pending) >= harvest:
             break
+        if slice_s is not None and time.time() - t0 > slice_s and st.paths > 0:
+            break  # hand the remaining prefixes back for re-distribution
         if st.paths >= ob.max_paths or (deadline is not None and time.time() > deadline):
             st.truncated = True
             st.inconclusive.append("exploration truncated (max_paths/deadline) with %d prefixes pending" % len(e.pending))
@@ -271,15 +273,19 @@ def _validate(ob, st, inp, res, model):
 
 # ---------------------------------------------------------------- multi-process
 def _worker(args):
-    spec, prefixes, deadline = args
+    spec, prefixes, deadline, slice_s, presplit = args
     try:
         ob = build(spec)
-        st, left = explore(ob, prefixes, deadline=deadline)
-        return spec, st
+        if presplit:
+            # a subtree known to be big: break it into >= 16 prefixes (breadth first) and hand those back at once
+            st, left = explore(ob, prefixes, harvest=16, deadline=deadline)
+            return spec, st, left
+        st, left = explore(ob, prefixes, deadline=deadline, slice_s=slice_s)
+        return spec, st, left
     except BaseException as ex:
         st = Stats(str(spec))
         st.harness_errors.append("worker crashed: %r\n%s" % (ex, traceback.format_exc(limit=8)))
-        return spec, st
+        return spec, st, []
 
 
 def build(spec):
@@ -289,31 +295,42 @@ def build(spec):
     return getattr(m, fac)(*args)
 
 
-def run_all(specs, procs=None, split=24, budget_s=None, log=None):
-    """Run obligations given as picklable specs.  Big obligations are split into decision prefixes which are
-    farmed out to a process pool as soon as their harvest finishes.  Returns {name: Stats}."""
+def run_all(specs, procs=None, split=24, budget_s=None, log=None, slice_s=8.0):
+    """Run obligations given as picklable specs.  Big obligations are split into decision prefixes which are farmed out to
+    a process pool; a job that runs longer than `slice_s` hands its pending prefixes back for re-distribution.
+    Returns {name: Stats}."""
+    import collections
+
     procs = procs or min(16, os.cpu_count() or 1)
     deadline = time.time() + budget_s if budget_s else None
     results = {}
     ctx = mp.get_context("fork")
     t0 = time.time()
-    pending = []
     names = {}
     with ctx.Pool(procs, maxtasksperchild=400) as pool:
         hv = [pool.apply_async(_harvest, ((s, split, deadline),)) for s in specs]
+        queue = collections.deque()
         njobs = 0
         for h in hv:
             spec, st, left = h.get()
             names[spec] = st.name
             results[st.name] = st
             for p in left:
-                pending.append(pool.apply_async(_worker, ((spec, [p], deadline),)))
+                queue.append(pool.apply_async(_worker, ((spec, [p], deadline, slice_s, False),)))
                 njobs += 1
         if log:
             log("harvested %d obligations -> %d prefix jobs in %.1fs" % (len(specs), njobs, time.time() - t0))
-        for r in pending:
-            spec, st = r.get()
+        while queue:
+            r = queue.popleft()
+            spec, st, left = r.get()
             results[names[spec]].merge(st)
+            # shortest prefixes = shallowest = biggest subtrees: split those first
+            left = sorted(left, key=len)
+            for i, p in enumerate(left):
+                queue.append(pool.apply_async(_worker, ((spec, [p], deadline, slice_s, i < 3 and len(left) > 1),)))
+                njobs += 1
+        if log:
+            log("finished %d jobs in %.1fs" % (njobs, time.time() - t0))
     return results
 
 
